@@ -88,6 +88,15 @@ static void run(Ctx& c) {
             long d = firstDiff(got, T[i], tol);
             if (d >= 0) throw Violation(kb + ":held-edge-changed", ctx + ": edge " + tos(i) + " at " + pointStr(w, rel, size_t(d)) + " now=" + got[size_t(d)].str() + " before=" + T[i][size_t(d)].str() + " table " + tableStr(T[i], 24));
         }
+        // counting agrees with the function under the new order (skipped levels are scaled by the size of the variable now at that level)
+        for (size_t i = 0; i < E.size(); i++) {
+            long want = 0; for (const Val& v : T[i]) { bool dflt = fs.isEVP() ? v.isInf() : (v.k == Val::R ? v.r == 0 : v.i == 0); if (!dflt) want++; }
+            long cl = -1; double cd = -1; apply(CARDINALITY, E[i], cl); apply(CARDINALITY, E[i], cd);
+            if (cl != want || cd != double(want)) throw Violation(kb + ":cardinality-after-reorder", ctx + ": edge " + tos(i) + " CARDINALITY long=" + tos(cl) + " double=" + tos(cd) + ", non-default assignments " + tos(want));
+            long visited = 0; for (dd_edge::iterator it = E[i].begin(); it; ++it) { visited++; if (visited > want + 2) break; }
+            if (visited != want) throw Violation(kb + ":iterator-count-after-reorder", ctx + ": edge " + tos(i) + " iterator visits " + tos(visited) + " assignments, expected " + tos(want));
+            c.count("cardinalities_after_reorder");
+        }
         // canonical under the new order: audit, and rebuilding a function gives the identical edge
         try { auditForest(F, fs.kindStr(), c, "C13"); }
         catch (Violation& v) { std::string cl = v.key.substr(4); cl = cl.substr(0, cl.rfind(':')); throw Violation(kb + ":not-canonical:" + cl, ctx + ": " + v.detail); }
